@@ -1,2 +1,94 @@
-/-! Line driver for C12 (stub; replaced when the model is written). -/
-def main : IO Unit := pure ()
+import MpVerif.C12.Model
+/-! Line driver for C12.  One case per line:
+
+  `R <n> <numCons> <nops> {o <int> | m <int>}* <nsegs> {O <idx> <0|1> <nl> | G <idx> <cnt> {<var> <coef>}* | X}*`
+
+Output: `err <kind>` or
+  `ok echo=<int> names=<i,i,..> nobj=<k> | <min|max> nl=<tok> lin=<v:c,v:c,..> | ...`
+No logic here: parsing + calls of `readNL`, `delivered`, `solObjnoLine`, `objRowIdx`. -/
+open MpVerif.C12
+
+def parseOps : Nat → List String → Option (List OptOp × List String)
+  | 0, rest => some ([], rest)
+  | k + 1, "o" :: v :: rest => do
+    let x ← v.toInt?
+    let (ops, r) ← parseOps k rest
+    pure (OptOp.objno x :: ops, r)
+  | k + 1, "m" :: v :: rest => do
+    let x ← v.toInt?
+    let (ops, r) ← parseOps k rest
+    pure (OptOp.multi x :: ops, r)
+  | _, _ => none
+
+def parseTerms : Nat → List String → Option (List (Nat × Int) × List String)
+  | 0, rest => some ([], rest)
+  | k + 1, v :: c :: rest => do
+    let vi ← v.toNat?
+    let ci ← c.toInt?
+    let (ts, r) ← parseTerms k rest
+    pure ((vi, ci) :: ts, r)
+  | _, _ => none
+
+def parseSegs : Nat → Nat → List String → Option (List Seg × List String)
+  | _, 0, rest => some ([], rest)
+  | fuel + 1, k + 1, "O" :: i :: mx :: nl :: rest => do
+    let idx ← i.toNat?
+    let m ← mx.toNat?
+    if m > 1 then none
+    let t ← nl.toNat?
+    let (sg, r) ← parseSegs fuel k rest
+    pure (Seg.O idx (m == 1) t :: sg, r)
+  | fuel + 1, k + 1, "G" :: i :: cnt :: rest => do
+    let idx ← i.toNat?
+    let c ← cnt.toNat?
+    let (ts, r1) ← parseTerms c rest
+    let (sg, r) ← parseSegs fuel k r1
+    pure (Seg.G idx ts :: sg, r)
+  | fuel + 1, k + 1, "X" :: rest => do
+    let (sg, r) ← parseSegs fuel k rest
+    pure (Seg.other :: sg, r)
+  | _, _, _ => none
+
+def showErr : Err → String
+  | .invalidOption => "invalidOption"
+  | .objnoOutOfRange => "objnoOutOfRange"
+  | .readError => "readError"
+
+def showObj (o : Obj) : String :=
+  (if o.isMax then "max" else "min") ++ " nl=" ++ toString o.nl ++ " lin=" ++
+    ",".intercalate (o.lin.map fun (v, c) => toString v ++ ":" ++ toString c)
+
+def runLine (toks : List String) : Option String := do
+  match toks with
+  | "R" :: n :: nc :: nops :: rest =>
+    let n ← n.toNat?
+    let nc ← nc.toNat?
+    let nops ← nops.toNat?
+    let (ops, r1) ← parseOps nops rest
+    match r1 with
+    | nsegs :: r2 =>
+      let nsegs ← nsegs.toNat?
+      let (segs, r3) ← parseSegs (r2.length + 1) nsegs r2
+      if !r3.isEmpty then none
+      match readNL ops n segs with
+      | .error e => pure ("err " ++ showErr e)
+      | .ok st =>
+        let objs := delivered st
+        pure ("ok echo=" ++ toString (solObjnoLine st) ++ " names=" ++
+          ",".intercalate ((objRowIdx nc st).map toString) ++ " nobj=" ++ toString objs.length ++
+          String.join (objs.map fun o => " | " ++ showObj o))
+    | _ => none
+  | _ => none
+
+partial def loop (h : IO.FS.Stream) (out : IO.FS.Stream) : IO Unit := do
+  let line ← h.getLine
+  if line.isEmpty then return ()
+  let toks := (line.trimAscii.toString.splitOn " ").filter (· ≠ "")
+  match runLine toks with
+  | some s => out.putStrLn s
+  | none => out.putStrLn "bad-op"
+  loop h out
+
+def main : IO Unit := do
+  let out ← IO.getStdout
+  loop (← IO.getStdin) out
